@@ -516,14 +516,16 @@ Theorem set_fv_null_refused : forall s rb, check_set_fv s None rb = Refuse VM1 (
 Proof. exact set_fv_null_refused_l. Qed.
 Print Assumptions set_fv_null_refused.
 
-(* the scalar setters accept exactly the documented ranges - and NaN, which no comparison catches *)
-Theorem set_pvalue_iff : forall x,
-  check_set_pvalue x = Pass <-> (x = None \/ exists q, x = Some q /\ (0 < q)%Q /\ (q <= 1)%Q).
+(* the scalar setters accept exactly the documented ranges - and NaN, which no comparison catches, unless the range
+   test starts with isnan (nan = gen_*_refuses_nan, read from the C text; true after fix DC90): with nan = true the
+   accepted values are exactly the documented ones *)
+Theorem set_pvalue_iff : forall nan x,
+  check_set_pvalue_with nan x = Pass <-> ((nan = false /\ x = None) \/ exists q, x = Some q /\ (0 < q)%Q /\ (q <= 1)%Q).
 Proof. exact set_pvalue_iff_l. Qed.
 Print Assumptions set_pvalue_iff.
 
-Theorem set_tolerance_iff : forall x,
-  check_set_tolerance x = Pass <-> (x = None \/ exists q, x = Some q /\ (0 <= q)%Q).
+Theorem set_tolerance_iff : forall nan x,
+  check_set_tolerance_with nan x = Pass <-> ((nan = false /\ x = None) \/ exists q, x = Some q /\ (0 <= q)%Q).
 Proof. exact set_tolerance_iff_l. Qed.
 Print Assumptions set_tolerance_iff.
 
@@ -897,8 +899,8 @@ Print Assumptions new_alloc_contract.
 
 Theorem scalar_setter_contracts : forall (x : dval) (n : Z),
   crun (env_dbl HOk "significance" x) gen_contract_vnacal_new_set_pvalue_limit = lift (check_set_pvalue x) /\
-  crun (env_dbl HOk "tolerance" x) gen_contract_vnacal_new_set_p_tolerance = lift (check_set_tolerance x) /\
-  crun (env_dbl HOk "tolerance" x) gen_contract_vnacal_new_set_et_tolerance = lift (check_set_tolerance x) /\
+  crun (env_dbl HOk "tolerance" x) gen_contract_vnacal_new_set_p_tolerance = lift (check_set_p_tolerance x) /\
+  crun (env_dbl HOk "tolerance" x) gen_contract_vnacal_new_set_et_tolerance = lift (check_set_et_tolerance x) /\
   crun (env_int HOk "iterations" n) gen_contract_vnacal_new_set_iteration_limit = lift (check_set_iteration n) /\
   crun (env_int HOk "unused" 0) gen_contract_vnacal_new_set_z0 = CPass.
 Proof.
@@ -943,12 +945,20 @@ Qed.
 Print Assumptions add_calibration_contract.
 
 Theorem precision_contract : forall p,
-  crun (env_precision p) gen_contract_vnacal_set_fprecision =
+  crun (env_precision HOk p) gen_contract_vnacal_set_fprecision =
     (if (1 <=? p) && (p <=? gen_max_precision) then CPass else CRefused VM1 (Via USAGE)) /\
-  crun (env_precision p) gen_contract_vnacal_set_dprecision =
+  crun (env_precision HOk p) gen_contract_vnacal_set_dprecision =
     (if (1 <=? p) && (p <=? gen_max_precision) then CPass else CRefused VM1 (Via USAGE)).
 Proof. exact precision_contract_l. Qed.
 Print Assumptions precision_contract.
+
+(* as found the two functions dereference their vnacal_t pointer without a test; when the C text has the test
+   (has_handle_test, fix DC91) a NULL / wrong-magic pointer is refused silently with EINVAL *)
+Theorem precision_bad_handle : forall h p c,
+  h <> HOk -> In c [gen_contract_vnacal_set_fprecision; gen_contract_vnacal_set_dprecision] ->
+  has_handle_test c = true -> crun (env_precision h p) c = CRefused VM1 (Direct E_INVAL).
+Proof. exact precision_bad_handle_l. Qed.
+Print Assumptions precision_bad_handle.
 
 (* the queries over every calibration table and every ci: silent, failure value by return type, refused exactly for
    a ci that names no calibration (fmin / fmax: or one without frequency points; property calls: ci = -1 is the
@@ -1007,3 +1017,47 @@ Theorem new_settings_satisfiable :
                                 N2SetMError HOk (mkmerr 1 None (Some [Some 1%Q]) None false false)])) = true.
 Proof. exact n2_history_satisfiable. Qed.
 Print Assumptions new_settings_satisfiable.
+
+(* 11. _vnacal_new_add_common regenerated from the C text (session 5, second box): gen_contract_vnacal_new_add_common is
+       the argument validation in front of the first allocation plus the two tests made on the not yet linked measurement,
+       gen_add_type_table the switch that sets ptype / min_b_rows / min_b_columns.  The equality with the hand-written
+       NewModel.check_add in the environment env_add is compared by the check on generated tuples (obligation
+       tie:add_common-contract-vs-check_add); proved here: what every refusal of the generated list looks like, the
+       port-map scan of the environment against scan_map, and the equality on eight concrete standards.  *)
+Theorem add_common_as_found :
+  forallb add_step_ok gen_contract_vnacal_new_add_common = true /\
+  forallb (fun t => match add_type_row t with Some _ => true | None => false end) [0; 1; 2; 3; 4; 5; 6; 7] = true /\
+  (gen_add_common_prefix <= List.length gen_contract_vnacal_new_add_common)%nat.
+Proof. exact add_common_as_found_l. Qed.
+Print Assumptions add_common_as_found.
+
+Theorem add_common_refusal_classified : forall e v r,
+  crun e gen_contract_vnacal_new_add_common = CRefused v r -> v = VM1 /\ (r = Via USAGE \/ r = Via MATH).
+Proof. exact add_common_refusal_classified_l. Qed.
+Print Assumptions add_common_refusal_classified.
+
+Theorem add_common_scan_is_scan_map : forall P l seen mx idx,
+  scan_map P l seen mx = match scan_code P l seen mx idx with Some _ => true | None => false end.
+Proof. exact scan_code_map. Qed.
+Print Assumptions add_common_scan_is_scan_map.
+
+(* full statement, not proved (the case analysis over 8 types x port-map codes x 20 comparisons did not finish in the
+   time box): forall s a, new_type_ok (v_type s) = true ->
+     crun (env_add s a) gen_contract_vnacal_new_add_common = lift (check_add s a) *)
+Theorem add_common_contract_partial :
+  let s := mknsum 4 2 2 3 true true (mknew [] 0 0 0 None) in
+  let ok := ChEnd 1 true false 0%Q None in
+  let rows := [mkadd false None 2 2 2 2 (Some [1; 2]) [ok; ok; ok; ok] false false;
+               mkadd false None 2 2 1 1 (Some [2]) [ok] false true;
+               mkadd false None 2 2 2 2 (Some [1; 1]) [ok; ok; ok; ok] false false;
+               mkadd false None 2 2 2 2 (Some [1; 3]) [ok; ok; ok; ok] false false;
+               mkadd false (Some (2, 2)) 2 2 2 2 None [ok; ok; ok; ok] true false;
+               mkadd false None 2 2 2 2 None [ok; ChNone 99; ok; ok] false false;
+               mkadd true None 2 2 2 2 None [ok; ok; ok; ok] false false;
+               mkadd false None 3 2 2 2 None [ok; ok; ok; ok] false false] in
+  map (fun a => crun (env_add s a) gen_contract_vnacal_new_add_common) rows = map (fun a => lift (check_add s a)) rows /\
+  map (fun a => crun (env_add s a) gen_contract_vnacal_new_add_common) rows =
+    [CPass; CRefused VM1 (Via USAGE); CRefused VM1 (Via USAGE); CRefused VM1 (Via USAGE); CRefused VM1 (Via MATH);
+     CRefused VM1 (Via USAGE); CRefused VM1 (Via USAGE); CRefused VM1 (Via USAGE)].
+Proof. exact add_common_contract_examples. Qed.
+Print Assumptions add_common_contract_partial.
